@@ -17,7 +17,7 @@ QUANTIFIED OVER: {quant}
 WHY THE EXISTING TESTS CANNOT SETTLE IT: {why}
 CODE ANCHORS: {anchors}
 
-YOUR TASK: craft ONE realistic change (a plausible bug or well-meant refactoring/optimisation a developer could make) to the package source under {wt}/tdgl that BREAKS this property, while (1) the package still imports and (2) the repository's existing test-suite still passes. Do NOT run the whole test-suite (it takes very long on this loaded machine and the orchestrator will run it afterwards): run only the test files that exercise the code you touched, e.g. `cd {wt} && NUMBA_NUM_THREADS=2 /venv/bin/python -m pytest tdgl/test/test_solve.py -q -x -p no:cacheprovider --timeout=3000` (not tdgl/test/test_visualization.py unless you touched visualisation; there are a few pre-existing failures unrelated to any change, e.g. numpy-2 `np.trapz`/`np.cross` errors, missing meshio, "Expected a simply-connected polygon" in test_device.py — compare with the unmodified code if in doubt: `git stash`, run, `git stash pop`). The change must NOT be something that ordinary use exposes at once: prefer a breakage that needs something specific to manifest — a particular multi-step sequence of operations, a particular crash/fault/interrupt point, an unusual but legitimate input (boundary values such as 0 or None, three or four terminals, a hole, save_every not dividing the run length, a time-dependent parameter nested in a composite, a pre-existing file, screening on, adaptive retries, a second gauge, different units, a reloaded object), or two cooperating code sites that each look fine alone. Keep the diff small (a few lines to a few dozen) and do not edit tests.
+YOUR TASK: craft ONE realistic change (a plausible bug or well-meant refactoring/optimisation a developer could make) to the package source under {wt}/tdgl that BREAKS this property, while (1) the package still imports and (2) the repository's existing test-suite still passes. Do NOT run the whole test-suite (it takes very long on this loaded machine and the orchestrator will run it afterwards): run only the test files that exercise the code you touched, e.g. `cd {wt} && NUMBA_NUM_THREADS=2 /venv/bin/python -m pytest tdgl/test/test_solve.py -q -x -p no:cacheprovider --timeout=3000` (not tdgl/test/test_visualization.py unless you touched visualisation; there are a few pre-existing failures unrelated to any change, e.g. numpy-2 `np.trapz`/`np.cross` errors, missing meshio, "Expected a simply-connected polygon" in test_device.py — compare with the unmodified code if in doubt: save your change with `git diff -- tdgl > /tmp/<your worktree name>.diff`, `git apply -R` it, run, `git apply` it again; NEVER use `git stash`: the stash is shared by all worktrees of the repository and other people are working in theirs). The change must NOT be something that ordinary use exposes at once: prefer a breakage that needs something specific to manifest — a particular multi-step sequence of operations, a particular crash/fault/interrupt point, an unusual but legitimate input (boundary values such as 0 or None, three or four terminals, a hole, save_every not dividing the run length, a time-dependent parameter nested in a composite, a pre-existing file, screening on, adaptive retries, a second gauge, different units, a reloaded object), or two cooperating code sites that each look fine alone. Keep the diff small (a few lines to a few dozen) and do not edit tests.
 {avoid}
 DELIVERABLES (all inside {wt}/MUTATION/, create the directory):
  1. patch.diff — `git -C {wt} diff -- tdgl > MUTATION/patch.diff` of your change to the package source only (no test edits, not including the MUTATION directory).
